@@ -1,11 +1,11 @@
-SPECIFICATION SSpec
+SPECIFICATION HSpec
 CONSTANTS
   Names = {"a", "b"}
   Values = {"v1", "v2"}
-  WithEmpty = FALSE
+  WithEmpty = TRUE
   MaxPathLen = 4
   ModelKinds = {"timeout"}
   ChainLen = 3
   Changes = {}
-INVARIANTS Emit
+INVARIANTS HEmit
 CHECK_DEADLOCK FALSE
